@@ -418,7 +418,7 @@ def build_tree(w):
     os.symlink("a.txt", os.path.join(w, "t/lnk"))
     # extreme attributes: times before 1970 (whole second and fractional) and after 2262 (no huge sparse file here: the queries
     # of C10 / C11 read file contents)
-    for nm, ns in (("t/sub/y1960", -315619200 * 10 ** 9), ("t/sub/y1965f", -152668800 * 10 ** 9 - 500000000), ("t/sub/y2300", 10413792000 * 10 ** 9)):
+    for nm, ns in (("t/sub/y1960", -315619200 * 10 ** 9), ("t/sub/y1961", -283996741 * 10 ** 9), ("t/sub/y1901", -2147483647 * 10 ** 9), ("t/sub/y1965f", -152668800 * 10 ** 9 - 500000000), ("t/sub/y2300", 10413792000 * 10 ** 9)):
         open(os.path.join(w, nm), "w").close()
         os.utime(os.path.join(w, nm), ns=(ns, ns))
     # entries whose content must never be opened: a FIFO without a writer, links to it and to an endless device
